@@ -187,3 +187,42 @@ theorem NoDupKeys_sublist_tail (e : κ × ν) (m : List (κ × ν)) (hn : NoDupK
   exact hn.2
 
 end Py
+
+namespace Py
+variable {κ ν : Type} [DecidableEq κ]
+
+theorem mem_dpop (m : List (κ × ν)) (k : κ) (e : κ × ν) (h : e ∈ dpop m k) : e ∈ m := by
+  induction m with
+  | nil => simp [dpop] at h
+  | cons e0 r ih =>
+    obtain ⟨k0, v0⟩ := e0
+    by_cases h0 : k0 = k
+    · simp [dpop, h0] at h; exact List.mem_cons_of_mem _ h
+    · simp [dpop, h0] at h
+      rcases h with h | h
+      · subst h; simp
+      · exact List.mem_cons_of_mem _ (ih h)
+
+theorem NoDupKeys_dpop (m : List (κ × ν)) (k : κ) (hn : NoDupKeys m) : NoDupKeys (dpop m k) := by
+  induction m with
+  | nil => simp [dpop, NoDupKeys]
+  | cons e0 r ih =>
+    obtain ⟨k0, v0⟩ := e0
+    simp only [NoDupKeys] at hn
+    by_cases h0 : k0 = k
+    · simp [dpop, h0]; exact hn.2
+    · simp only [dpop, h0, if_false, NoDupKeys]
+      exact ⟨fun e he => hn.1 e (mem_dpop r k e he), ih hn.2⟩
+
+theorem dget_dpop_other (m : List (κ × ν)) (k k' : κ) (h : k ≠ k') : dget (dpop m k) k' = dget m k' := by
+  induction m with
+  | nil => simp [dpop]
+  | cons e0 r ih =>
+    obtain ⟨k0, v0⟩ := e0
+    by_cases h0 : k0 = k
+    · subst h0; simp [dpop, dget, h]
+    · by_cases h1 : k0 = k'
+      · subst h1; simp [dpop, dget, h0]
+      · simp [dpop, dget, h0, h1, ih]
+
+end Py
